@@ -150,7 +150,7 @@ def run_fit(case, R):
             top_act = np.where(act, lp, -np.inf).max(axis=-2)
             lim = -0.95 * float(np.log(np.finfo(lp.dtype if lp.dtype.kind == 'f' else np.float64).tiny))
             some_dead = ~act.all(axis=-2)          # columns in which a class has no prior mass: outside "every class has non-zero mass"
-            if (some_dead & ((lp.max(axis=-2) - top_act > lim) | (top_act == -np.inf))).any():
+            if (some_dead & ((lp.max(axis=-2) - top_act > lim) | ~np.isfinite(top_act))).any():
                 R.count('zero-weight class dominates beyond the exp range of the dtype (not judged)')
                 R.undecided('C01.M2', 'outside float range')
                 return
